@@ -40,3 +40,17 @@ Proof. exact tie_unwrapper_push. Qed.
 Check C09_source_unwrapper_push : forall st l, g_unwrapper_push st l = Ok (unwrap_push st l).
 Print Assumptions C09_source_unwrapper_push.
 
+From Avt Require Import Gen.AccFns Proofs.AccTie.
+(** SOURCE TIE BY PROOF (translate/acc2coq.py -> Gen/AccFns.v): the public constructors and accessors are REGENERATED from the Rust source on every run and proved equal to the model's observation functions - the functions through which every theorem of this property reads the terminal *)
+(** Vt::text = Terminal::text on the primary buffer *)
+Theorem C09_source_vt_text : forall v, g_vt_text v = Ok (vt_text v).
+Proof. exact tie_vt_text. Qed.
+Check C09_source_vt_text : forall v, g_vt_text v = Ok (vt_text v).
+Print Assumptions C09_source_vt_text.
+
+(** Line::text / chars *)
+Theorem C09_source_line_text : forall l, g_line_text l = Ok (line_text l).
+Proof. exact tie_line_text. Qed.
+Check C09_source_line_text : forall l, g_line_text l = Ok (line_text l).
+Print Assumptions C09_source_line_text.
+
